@@ -2641,6 +2641,11 @@ bool BW_MidiSequencer::parseCMF(FileAndMemReader &fr)
     uint64_t mus_start = readLEint(headerBuf + 8, 2);
     //unsigned deltas    = ReadLEint(HeaderBuf+10, 2);
     uint64_t ticks     = readLEint(headerBuf + 12, 2);
+    if(ticks == 0)
+    {
+        m_errorString = fr.fileName() + ": Invalid format, CTMF timer ticks value is zero!\n";
+        return false;
+    }
     // Read title, author, remarks start offsets in file
     fsize = fr.read(headerBuf, 1, 6);
     if(fsize < 6)
@@ -2826,6 +2831,12 @@ bool BW_MidiSequencer::parseSMF(FileAndMemReader &fr)
 
     if(smfFormat > 2)
         smfFormat = 1;
+
+    if(deltaTicks == 0)
+    {
+        m_errorString = fr.fileName() + ": Invalid format, time division is zero!\n";
+        return false;
+    }
 
     rawTrackData.clear();
     rawTrackData.resize(TrackCount, std::vector<uint8_t>());
